@@ -51,6 +51,11 @@ class Hooked(ChainObject, AutoParameterObject):
     def init_chain(self, chain):
         self._tcv_chain = sorted(chain.tasks)
 
+class AutoS(AutoParameterObject):
+    """keeps its argument as a set (what a class that wants membership tests does)"""
+    def __init__(self, tags):
+        self.tags = set(tags)
+
 class User(ParameterObject):
     def __init__(self, text):
         self.text = text
@@ -64,7 +69,7 @@ class Plain:
         self.kwargs = kwargs
 '''
     exec(src, m.__dict__)
-    for c in ('AutoA', 'AutoB', 'Hooked', 'User', 'Plain'):
+    for c in ('AutoA', 'AutoB', 'Hooked', 'AutoS', 'User', 'Plain'):
         getattr(m, c).__module__ = name
     sys.modules[name] = m
     return m
@@ -74,6 +79,7 @@ AUTO_SIGS = {
     'AutoA': dict(params=[('a', None), ('b', [1]), ('verbose', [False])], ignore=['verbose', 'debug'], dropdef=[]),
     'AutoB': dict(params=[('x', [None]), ('y', [None]), ('debug', [0])], ignore=['verbose', 'debug'], dropdef=['y']),
     'Hooked': dict(params=[('a', None)], ignore=['verbose', 'debug'], dropdef=[]),
+    'AutoS': dict(params=[('tags', None)], ignore=['verbose', 'debug'], dropdef=[]),
 }
 
 
